@@ -28,7 +28,7 @@ NOT_APPLICABLE = {
     "C10": "harnesses under construction (not yet registered)",
     "C12": "harnesses under construction (not yet registered)",
     "C13": "harnesses under construction (not yet registered)",
-    "C14": "not built yet",
+    "C14": "under construction",
     "C15": "not built yet",
     "C16": "not built yet",
     "C17": "not built yet",
@@ -36,6 +36,28 @@ NOT_APPLICABLE = {
     "C19": "harnesses under construction (not yet registered)",
     "C20": "harnesses under construction (not yet registered)",
 }
+
+S_TECH = ("bounded symbolic execution of the real generic palette code by instantiation with a term-building number type "
+          "(SymM: symbolic mask, the SIMD code path as one DAG with ite; SymF: bool mask, the scalar code path, one run per decision "
+          "vector), then z3 over the DAG: exact real arithmetic, constants = the exact rational value of the f64 the code constructs, "
+          "sqrt/cbrt algebraic, floor/ceil via to_int, transcendental functions uninterpreted + ground instances of sound axioms; "
+          "unsat of the negated goal = holds for every input in the stated box; every model is replayed natively in f64 and f32 "
+          "(must violate the goal by 0.9 x the tolerance in both) before VIOLATION")
+S_SHORT = "symbolic instantiation of the generic code + z3 (nonlinear real arithmetic) over the term DAG, native f32/f64 replay of models"
+S_ASSUME = [
+    "real-arithmetic reading of every float operation: per-operation rounding is outside an Engine-S claim (tolerances are >= 100x f32 rounding noise)",
+    "transcendental functions (powf, exp, ln, sin, cos, atan2) are uninterpreted; the ground axioms used are listed per obligation in the evidence",
+    "is_valid_divisor is read as |x| >= f32::MIN_POSITIVE",
+]
+
+
+def sprop(level_text, level_note, assumptions=None, engines=("symx",), trusted=None):
+    both = "kani" in engines
+    return {"engines": list(engines), "technique": (K_TECH + " || " if both else "") + S_TECH,
+            "technique_short": (K_SHORT + "; " if both else "") + S_SHORT,
+            "assumptions": S_ASSUME + (K_FLOAT_ASSUME if both else []) + (assumptions or []), "level_text": level_text,
+            "level_note": level_note, "trusted": ["z3 4.8.12 (nlsat)"] + (trusted or [])}
+
 
 def kprop(level_text, level_note, assumptions=None, engines=("kani",), trusted=None):
     return {"engines": list(engines), "technique": K_TECH, "technique_short": K_SHORT,
@@ -86,6 +108,13 @@ PROPS = {
         "Bounded model checking of the real Serialize/Deserialize impls against an in-harness serde data-model back end (token recorder, "
         "self-describing and compact): round trip bit for bit, shape of Alpha / hue / metadata, missing alpha => opaque, helper forms.",
         "Trusted: Kani/CBMC/cadical; the in-harness serde back end. The JSON/RON text layer is outside the claim."),
+    "C14": sprop(
+        "Symbolic execution of the real RGB<->XYZ, XYZ->Lab/Luv/Oklab and chromatic-adaptation code for every RGB standard / white point "
+        "pair; z3 decides, for ALL greys / colours in the stated boxes, that white maps to the white point, neutrals stay neutral, the "
+        "matrices are mutual inverses and agree with the primaries, and adaptation maps white to white, is the identity for equal white "
+        "points and round-trips.",
+        "Trusted: z3; the independent derivation of the RGB matrices from the published chromaticities (symx/src/reference/rgbspace.rs). "
+        "Rounding of individual float operations is outside the claim."),
     "C05": kprop(
         "Bit-precise bounded model checking of the integer fast paths: for each encoding the real from_linear/into_linear impls and "
         "the real lookup tables are executed symbolically over ALL f32 (2^32) / f64 (2^64) inputs and all codes: totality and "
